@@ -1067,6 +1067,11 @@ def m_searchsorted_arr(arr, v, side="left", sorter=None):
         return tot
     if isinstance(v, SymArray):
         return SymArray([one(x) for x in v.e], int)
+    if isinstance(v, Masked):
+        # element-wise on the selected rows: the selection mask is kept
+        return Masked(SymArray([one(x) for x in v.arr.e], int), v.mask)
+    if getattr(v, "_symarray", False):
+        raise Unsupported(f"searchsorted of a {type(v).__name__}")
     return one(v)
 
 
